@@ -205,8 +205,11 @@ def gen_case(rng: random.Random, intensify: bool) -> dict:
             cols.insert(rng.randrange(len(cols) + 1), "")
             if rng.random() < 0.5:
                 cols.append("")
-    return {"mode": mode, "via": via, "ndim": ndim, "cols": cols, "required": required,
+    case = {"mode": mode, "via": via, "ndim": ndim, "cols": cols, "required": required,
             "feats": table, "malformed": malformed}
+    if via != "direct" and ndim is not None and rng.random() < 0.4:
+        case["late_ndim"] = True
+    return case
 
 
 # --------------------------------------------------------------------------------------
@@ -270,8 +273,11 @@ def run_real(case: dict) -> tuple[str, Any, list]:
 
                 b = B()
                 b.ndim = case["ndim"]
-                b.available_computed_features = get_default_key_to_feature_mapping(
-                    case["ndim"], display_name=False)
+                if not case.get("late_ndim"):
+                    b.available_computed_features = get_default_key_to_feature_mapping(
+                        case["ndim"], display_name=False)
+                # late_ndim: what `prepare(source, segmentation=…)` does — the dimensionality becomes
+                # known after the builder (and its default feature table) was created
                 if case["mode"] == "node":
                     b.importable_node_props = cols
                     out = b.infer_node_name_map()
@@ -296,7 +302,7 @@ def effective_required(case: dict) -> list[str]:
 def effective_feats(case: dict) -> dict | None:
     if case["via"] == "direct":
         return case["feats"]
-    return live_features(case["ndim"])
+    return live_features(None if case.get("late_ndim") else case["ndim"])
 
 
 # --------------------------------------------------------------------------------------
@@ -410,7 +416,8 @@ def literal(case: dict) -> dict:
     """self-contained replay: the feature table is stored literally"""
     return {"mode": case["mode"], "via": case["via"], "ndim": case["ndim"],
             "cols": list(case["cols"]), "required": list(case["required"]),
-            "feats": effective_feats(case) if case["via"] == "direct" else None}
+            "feats": effective_feats(case) if case["via"] == "direct" else None,
+            "late_ndim": bool(case.get("late_ndim"))}
 
 
 def shrink(case: dict, still_fails) -> dict:
@@ -624,9 +631,10 @@ def replay(prop: str, replay_obj: dict) -> int:
         return 2
     case = {"mode": rp["mode"], "via": rp.get("via", "direct"), "ndim": rp.get("ndim"),
             "cols": list(rp["cols"]), "required": list(rp.get("required", [])),
-            "feats": rp.get("feats"), "malformed": len(set(rp["cols"])) != len(rp["cols"])}
+            "feats": rp.get("feats"), "malformed": len(set(rp["cols"])) != len(rp["cols"]),
+            "late_ndim": bool(rp.get("late_ndim"))}
     if case["via"] != "direct":
-        case["feats"] = live_features(case["ndim"])
+        case["feats"] = effective_feats(case)
     st, out, tr = run_real(case)
     print(f"case: mode={case['mode']} via={case['via']} columns={case['cols']!r} "
           f"required={effective_required(case)!r}")
